@@ -28,6 +28,34 @@ var verifCodes = []int{@CODES@}
 
 const verifBadCode = @BADCODE@
 
+// verifBadCodes: token codes the grammar does not declare - the far one, the
+// ones just above the largest declared code (where a generator might number
+// its nonterminals), and the smallest free ones
+var verifBadCodes = func() []int {
+	decl := map[int]bool{}
+	decl[@EOFCODE@] = true
+	decl[-1] = true
+	max := 0
+	for _, c := range verifCodes {
+		decl[c] = true
+		if c > max {
+			max = c
+		}
+	}
+	out := []int{verifBadCode}
+	for c := max + 1; c <= max+@NNT@+4; c++ {
+		out = append(out, c)
+	}
+	n := 0
+	for c := 0; c < 400 && n < 3; c++ {
+		if !decl[c] {
+			out = append(out, c)
+			n++
+		}
+	}
+	return out
+}()
+
 // --- per-parse recording (sequential modes only)
 var verifLog []int
 var verifFetchLog []int
@@ -89,7 +117,7 @@ func verifGetToken(input string, val *ValType, pos *int) int {
 	p := *pos
 	*pos++
 	if c == '?' {
-		return verifBadCode
+		return verifBadCodes[(p*31+len(input)*7)%len(verifBadCodes)]
 	}
 	k := int(c) - 64
 	*val = ValType{s: "!", t: "!", n: -9999, m: -9999, st: "!", nm: -9999}
@@ -217,6 +245,69 @@ func VerifMain(reqPath, respPath string) {
 	}
 }
 
+// c17 mode: traced parses with a complete traced inner parse inside the action of a reduction. The lines
+// of the inner parse are bracketed by @@NEST-BEGIN / @@NEST-END, so the outer trace can be read around
+// them. Results: one list of 3 entries per case (inner parse inside the first, the middle and the last
+// reduction); entries that were not run have an empty verdict. The trace of entry j of case k is
+// delimited as case number len(cases) + 3*k + j.
+func verifTraceNest(req *VerifRequest, resp *VerifResponse, run func(k int, in string) VerifResult, inner func(in string)) {
+	base := resp.Results[0]
+	n := len(req.Cases)
+	out := make([]VerifResult, 3*n)
+	for k := range req.Cases {
+		L := len(base[k].Log)
+		if base[k].Verdict == "steplimit" || base[k].Verdict == "crash" || L == 0 {
+			continue
+		}
+		ok := -1
+		for d := 1; d <= n; d++ {
+			if c := (k + d) % n; base[c].Verdict != "steplimit" && base[c].Verdict != "crash" {
+				ok = c
+				break
+			}
+		}
+		if ok < 0 {
+			continue
+		}
+		other := req.Cases[ok]
+		ats := []int{1, (L + 1) / 2, L}
+		for j, a := range ats {
+			if j > 0 && a == ats[j-1] {
+				continue
+			}
+			at := -a
+			fired := false
+			verifNested = func(pos int) {
+				if pos != at || fired {
+					return
+				}
+				fired = true
+				sl, sf, sn := verifLog, verifFetchLog, verifFetched
+				hook := verifNested
+				verifNested = nil
+				atomic.StoreInt32(&verifConcurrent, 1)
+				fmt.Println("@@NEST-BEGIN")
+				func() {
+					defer func() { recover() }()
+					inner(other)
+				}()
+				fmt.Println("@@NEST-END")
+				atomic.StoreInt32(&verifConcurrent, 0)
+				verifNested = hook
+				verifLog, verifFetchLog, verifFetched = sl, sf, sn
+			}
+			r := run(n+3*k+j, req.Cases[k])
+			verifNested = nil
+			if !fired {
+				r = VerifResult{}
+			}
+			out[3*k+j] = r
+		}
+	}
+	resp.Results = append(resp.Results, out)
+	resp.Notes = append(resp.Notes, "tracenest:1")
+}
+
 func verifBegin(k int) {
 	verifLog, verifFetchLog, verifFetched = nil, nil, 0
 	verifDirty = false
@@ -275,6 +366,15 @@ func verifModes(req *VerifRequest, resp *VerifResponse) {
 		resp.Results = append(resp.Results, out)
 	}
 	resp.Notes = append(resp.Notes, "orders:"+strconv.Itoa(len(orders)))
+	if req.Mode == "c17" {
+		verifTraceNest(req, resp, verifParseOnce, func(in string) {
+			PushContex()
+			defer PopContex()
+			ParserInit()
+			Parser(in)
+		})
+		return
+	}
 	if req.Mode != "c15" {
 		return
 	}
@@ -430,13 +530,20 @@ func verifModes(req *VerifRequest, resp *VerifResponse) {
 		orders = [][]int{o}
 	}
 	switch req.Mode {
-	case "", "fresh":
+	case "", "fresh", "c17":
 		for _, ord := range orders {
 			out := make([]VerifResult, len(req.Cases))
 			for _, k := range ord {
 				out[k] = verifParseCtx(MakeParserContext(), k, req.Cases[k], true)
 			}
 			resp.Results = append(resp.Results, out)
+		}
+		if req.Mode == "c17" {
+			verifTraceNest(req, resp, func(k int, in string) VerifResult {
+				return verifParseCtx(MakeParserContext(), k, in, true)
+			}, func(in string) {
+				MakeParserContext().Parser(in)
+			})
 		}
 	case "reuse":
 		for _, ord := range orders {
